@@ -20,6 +20,11 @@ CHECKS = {
         technique='as C04, with enumerated fault positions: every (producer, position) iterator failure, every stop point with/without exception, starvation with a timeout; offline checker over the event log (every consumer sees the failure, no duplicates, all producers return) plus exact deadlock witnesses',
         text='Every failure position and stop point of every generated configuration is combined with several explored schedules; a timed wait may only expire under global starvation, so a masked lost wake-up shows up as an unexpected TimeoutError.',
         note='As C04. Elements still queued when a failure is observed may be dropped (the property only forbids duplicates).'),
+    'C13': dict(
+        category='exploration', design_ref='DESIGN.md §3.2, §4 C13', engine='E2-deterministic-scheduler',
+        technique='runtime monitoring under the deterministic scheduler with a shim thread-pool executor: piter_multiplex/piter_fn/piter/pmap/MultiplexIterator run to exhaustion, to every early-stop position and to every failure position; oracle = multiset equality with the sequential evaluation, generator return values, pool shut-down flags and exact all-threads-finished / deadlock witnesses',
+        text='Explores thousands of schedules per tier of the real parallel-iteration code; thread release is decided exactly (every controlled worker finished, library-owned pool shut down) instead of by thread enumeration after a sleep.',
+        note='As C04; element-wise iterator functions; implicit pools only have to end idle. Known finding recorded: piter with several inputs leaves the upstream queue producers blocked on early stop/failure.'),
 }
 
 NOT_APPLICABLE = {}
